@@ -31,6 +31,8 @@ structure Node where
   cedges : List (Nat × Int) := []
   depth : Nat := 0
   deleted : Bool := false
+  name : Option String := none      -- payload: never read by the structural operations
+  comment : Option String := none   -- payload
 deriving Repr, Inhabited
 
 abbrev Arena := Array Node
